@@ -182,6 +182,9 @@ func (s *reportSim) RunCycle() int {
 	if s.cycleCount >= s.maxCycles || s.warriorLivingCount < 1 {
 		return 0
 	}
+	if s.warriorCount > 1 && s.warriorLivingCount < 2 {
+		return 0
+	}
 
 	if s.warriorIndex == 0 {
 		s.Report(Report{Type: CycleStart, Cycle: int(s.cycleCount)})
